@@ -11,6 +11,7 @@ correspond: X1 single-comparison functions per (type, op, constant, side, platfo
 search:     a condition reported always-b that evaluates to !b in a UB-free run is the failing input
             (program + argument tuple).
 """
+import copy
 import os
 import re
 import shutil
@@ -136,9 +137,16 @@ def run_oor(run, model, plat, cases, work, exec_native):
 
 
 def oor_known_class(plat, case):
-    """the recorded defect: a signed variable that the usual arithmetic conversions turn into an unsigned
-    (wider or equal) type because the constant is unsigned -- the checker compares mathematically"""
+    """the recorded defects: (a) operands of equal size, different rank and different sign: the token's Known value takes the
+    left operand's sign (C01's vf-equal-size-different-rank, truncateImplicitConversion); (b) a signed variable that the
+    usual arithmetic conversions turn into an unsigned (wider or equal) type because the constant is unsigned -- the checker
+    compares mathematically"""
     vt, ct, cl, op, c = case
+    pb = lambda b: max(bits(plat, b), bits(plat, "i"))
+    pr = lambda b: b if bits(plat, b) >= bits(plat, "i") else "i"
+    ps = lambda b, s_: s_ if bits(plat, b) >= bits(plat, "i") else "s"
+    if pb(vt[1]) == pb(ct[0]) and pr(vt[1]) != pr(ct[0]) and ps(vt[1], vt[2]) != ps(ct[0], ct[1]):
+        return "oor-equal-size-different-rank"
     if vt[2] == "s" and vt[1] != "b" and ct[1] == "u" and bits(plat, ct[0]) >= max(bits(plat, vt[1]), bits(plat, "i")):
         return "oor-signed-operand-converted-to-unsigned"
     return None
@@ -149,8 +157,11 @@ def mask_cases(rng, n):
     cs = [0, 1, 2, 3, 4, 5, 6, 7, 8, 9, 12, 15, 16, 17, 31, 32, 240, 255, 256, 65535, 65536]
     out = []
     for _ in range(n):
-        out.append((rng.choice(["&", "|"]), rng.choice(["int", "unsigned int", "unsigned char", "long long"]), rng.random() < 0.3,
-                    rng.choice(OPS), rng.choice(cs), rng.choice(cs)))
+        c = (rng.choice(["&", "|"]), rng.choice(["int", "unsigned int", "unsigned char", "long long"]), rng.random() < 0.3,
+             rng.choice(OPS), rng.choice(cs), rng.choice(cs))
+        if c[0] == "&" and c[4] == 0:
+            continue        # (x & 0) is itself a Known-valued token: the checker then takes it for the constant side
+        out.append(c)
     return out
 
 
@@ -165,7 +176,7 @@ def run_mask(run, model, cases, work):
     for f in vc.cppcheck_findings(path, "unix64", enable="style", inconclusive=False):
         if f.id == "comparisonError":
             rep[f.line - 1] = vc.verdict_of_msg(f.msg)
-    ker = model_lines(model, [["mask", "1" if bop == "&" else "0", "1" if t.startswith("unsigned int") else "0", op, str(c1), str(c2)]
+    ker = model_lines(model, [["mask", "1" if bop == "&" else "0", "1" if t.startswith("unsigned") else "0", op, str(c1), str(c2)]
                               for (bop, t, cl, op, c1, c2) in cases])
     diffs, wrong = [], []
     for i, case in enumerate(cases):
@@ -206,18 +217,20 @@ def map_findings(funcs, findings, pos, spans):
         if e.kind == "bin" and e.op in mg.CMPS:
             for o in (e.a, e.b):
                 operand_of[(o.line, o.col)] = s
+                if o.kind == "num" and o.v < 0:      # the tokenizer joins "-" and the digits; the column is the digits'
+                    operand_of[(o.line, o.col + 1)] = s
     checks, unmapped = [], []
     for f in findings:
         if f.id not in VERDICT_IDS:
             continue
         p = (f.line, f.col)
-        if f.id in ("knownConditionTrueFalse", "incorrectLogicOperator"):
+        if f.id in ("knownConditionTrueFalse", "incorrectLogicOperator", "multiCondition"):
             v = vc.verdict_of_msg(f.msg)
             if p in at and v is not None:
                 checks.append(("bool", at[p], v, f))
             else:
                 unmapped.append(f)
-        elif f.id in ("oppositeInnerCondition", "identicalConditionAfterEarlyExit", "multiCondition", "unsignedLessThanZero"):
+        elif f.id in ("oppositeInnerCondition", "identicalConditionAfterEarlyExit", "unsignedLessThanZero"):
             if p in at:
                 checks.append(("bool", at[p], False, f))
             else:
@@ -243,6 +256,8 @@ def map_findings(funcs, findings, pos, spans):
             m = re.search(r"is always (-?\d+)", f.msg)
             if p in at and m and site_e[at[p]].skind == "V":
                 checks.append(("value", at[p], int(m.group(1)), f))
+            elif p in at and m:
+                checks.append(("bool", at[p], int(m.group(1)) != 0, f))
             else:
                 unmapped.append(f)
     return checks, unmapped
@@ -274,14 +289,40 @@ def one_function_program(f):
     return text
 
 
-def run_programs(run, nfuncs, work, name):
-    rng = run.rng
-    gen = c03_gen.Gen(rng)
-    funcs, nid = [], 0
-    for i in range(nfuncs):
-        f = gen.function("f%d" % i)
+def reset_sites(funcs):
+    for f in funcs:
+        f.sites = {}
+        for st in walk_stmts(f.body):
+            for e in stmt_exprs(st):
+                for n in e.walk():
+                    n.site, n.skind = None, None
+
+
+def walk_stmts(stmts):
+    for s in stmts:
+        yield s
+        if s.kind == "if":
+            yield from walk_stmts(s.then)
+            if s.els is not None:
+                yield from walk_stmts(s.els)
+        elif s.kind in ("while", "for"):
+            yield from walk_stmts(s.body)
+
+
+def stmt_exprs(s):
+    if s.kind in ("if", "while", "for"):
+        return [s.c]
+    if s.kind in ("decl", "assign", "return", "sink"):
+        return [s.e]
+    return []
+
+
+def judge(funcs, work, name, count=None):
+    """analyse + execute the given functions; returns (stats, wrong verdicts, unmapped findings, all findings)"""
+    reset_sites(funcs)
+    nid = 0
+    for f in funcs:
         nid = f.assign_sites(nid)
-        funcs.append(f)
     plain, pos, spans = mg.render_plain(funcs)
     path = os.path.join(work, name + ".c")
     open(path, "w").write(plain)
@@ -305,7 +346,7 @@ def run_programs(run, nfuncs, work, name):
             if a <= ln <= b:
                 ub_funcs.add(fn)
     fos = func_of_site(funcs)
-    stats = {"functions": nfuncs, "sites": nid, "findings": len(findings), "verdict_findings": len(checks), "unmapped": len(unmapped),
+    stats = {"functions": len(funcs), "sites": nid, "findings": len(findings), "verdict_findings": len(checks), "unmapped": len(unmapped),
              "ub_functions": len(ub_funcs), "diverged_calls": ndiv}
     bad = []
     for c in checks:
@@ -314,11 +355,13 @@ def run_programs(run, nfuncs, work, name):
         fn = fos[site]
         row = rows.get(site)
         if fn.name in ub_funcs:
-            run.count("programs", None, bucket=f.id + ":ub-discarded")
+            if count:
+                count(f.id + ":ub-discarded", None)
             continue
         evaluated = row and (row["n"][0] + row["n"][1] > 0)
-        run.count("programs", None, nontrivial=(name, site, f.id) if evaluated else None,
-                  bucket=f.id + (":inconclusive" if f.inconclusive else "") + ("" if evaluated else ":never-evaluated"))
+        if count:
+            count(f.id + (":inconclusive" if f.inconclusive else "") + ("" if evaluated else ":never-evaluated"),
+                  (name, site, f.id) if evaluated else None)
         if not evaluated:
             continue
         names = [n for _, n, _ in fn.params]
@@ -327,28 +370,133 @@ def run_programs(run, nfuncs, work, name):
             if row["n"][0 if v else 1] > 0:
                 w = row["wit"][0 if v else 1]
                 bad.append((f, fn, dict(zip(names, w)), "evaluates to %s for this input (%d of %d evaluations)" % (
-                    "false" if v else "true", row["n"][0 if v else 1], sum(row["n"]))))
+                    "false" if v else "true", row["n"][0 if v else 1], sum(row["n"])), fn.sites[site]))
         elif kind == "pair":
             if row["pairbad"] > 0:
-                bad.append((f, fn, dict(zip(names, row["pairwit"])), "the two conditions differ in one call (%d calls)" % row["pairbad"]))
+                bad.append((f, fn, dict(zip(names, row["pairwit"])), "the two conditions differ in one call (%d calls)" % row["pairbad"], fn.sites[site]))
         else:
             if row["vmin"] != c[2] or row["vmax"] != c[2]:
                 w = row["wit"][0] if row["vmin"] != c[2] else row["wit"][1]
-                bad.append((f, fn, dict(zip(names, w)), "argument takes values %d..%d" % (row["vmin"], row["vmax"])))
+                bad.append((f, fn, dict(zip(names, w)), "argument takes values %d..%d" % (row["vmin"], row["vmax"]), fn.sites[site]))
     return stats, bad, unmapped, findings
 
 
-def classify_program_violation(f, fn):
-    """map a wrong verdict to a recorded defect only when the finding itself shows that defect's precondition"""
+def run_programs(run, nfuncs, work, name):
+    import random
+    gen = c03_gen.Gen(random.Random("C03-x2-%s-%s" % (run.seed, name)))
+    funcs = [gen.function("f%d" % i) for i in range(nfuncs)]
+    return judge(funcs, work, name, count=lambda bucket, nt: run.count("programs", None, nontrivial=nt, bucket=bucket))
+
+
+def variants(fn):
+    """one-step reductions of a function: drop a statement, replace a compound statement by a branch / its body"""
+    def lists(stmts, acc):
+        acc.append(stmts)
+        for s in stmts:
+            if s.kind == "if":
+                lists(s.then, acc)
+                if s.els is not None:
+                    lists(s.els, acc)
+            elif s.kind in ("while", "for"):
+                lists(s.body, acc)
+        return acc
+    nlists = len(lists(fn.body, []))
+    for li in range(nlists):
+        n = len(lists(fn.body, [])[li])
+        for i in range(n):
+            for mode in ("drop", "then", "else", "body"):
+                g = copy.deepcopy(fn)
+                L = lists(g.body, [])[li]
+                s = L[i]
+                if mode == "drop":
+                    if s.kind == "decl" or (s.kind == "return" and L is g.body and i == n - 1):
+                        continue
+                    del L[i]
+                elif mode == "then" and s.kind == "if":
+                    L[i:i + 1] = s.then
+                elif mode == "else" and s.kind == "if" and s.els is not None:
+                    L[i:i + 1] = s.els
+                elif mode == "body" and s.kind == "while":
+                    L[i:i + 1] = s.body
+                else:
+                    continue
+                yield g
+
+
+def shrink(fn, fid, work, budget=120):
+    """greedy statement-level reduction keeping 'a finding with this id is contradicted by an execution'"""
+    def still(g):
+        try:
+            _, bad, _, _ = judge([g], work, "shrink")
+        except (vlib.BuildError, Exception):
+            return None
+        for b in bad:
+            if b[0].id == fid and not b[0].inconclusive:
+                return b
+        return None
+    cur, curbad = fn, None
+    progress = True
+    while progress and budget > 0:
+        progress = False
+        for g in variants(cur):
+            budget -= 1
+            if budget <= 0:
+                break
+            b = still(g)
+            if b is not None:
+                cur, curbad, progress = g, b, True
+                break
+    if curbad is None:
+        curbad = still(cur)
+    return cur, curbad
+
+
+def mentions(e, name):
+    return any(n.kind == "var" and n.name == name for n in e.walk())
+
+
+def classify_program_violation(f, fn, expr):
+    """map a wrong verdict to a recorded defect only when the (shrunk) program shows that defect's precondition"""
+    ptype = {n: t for t, n, _ in fn.params}
     if f.id == "comparisonError":
         # recorded: the constant is the left operand and the operator is not mirrored
-        e = None
-        for s, ex in fn.sites.items():
-            if ex.kind == "bin" and ex.op in mg.CMPS and any((o.line, o.col) == (f.line, f.col) for o in (ex.a, ex.b)):
-                e = ex
-        if e is not None and (e.b.line, e.b.col) == (f.line, f.col) and e.op not in ("==", "!="):
+        if expr.kind == "bin" and expr.op in ("<", "<=", ">", ">=") and expr.a.kind == "num" and expr.b.kind == "bin" and expr.b.op in "&|":
             return "comparison-constant-on-left-not-mirrored"
+        return None
+    if f.id in ("knownConditionTrueFalse", "knownArgument", "identicalInnerCondition", "oppositeInnerCondition", "incorrectLogicOperator",
+                "identicalConditionAfterEarlyExit", "multiCondition", "duplicateCondition"):
+        ltype = {}
+        for st in walk_stmts(fn.body):
+            if st.kind == "decl":
+                ltype[st.name] = st.type
+        allt = dict(ptype)
+        allt.update(ltype)
+        # (1) a _Bool operand compared relationally with a constant: insertNegateKnown negates the bound value
+        for st in walk_stmts(fn.body):
+            for e in stmt_exprs(st):
+                for n in e.walk():
+                    if n.kind == "bin" and n.op in ("<", "<=", ">", ">="):
+                        for o in (n.a, n.b):
+                            if o.kind == "var" and allt.get(o.name) == "_Bool":
+                                return "vf-bool-relational-negate-known"
+        # (2) an unsigned variable changed by ++ / -- / += / -= and used in the condition: bounds move without wrap-around
+        for st in walk_stmts(fn.body):
+            if (st.kind == "incdec" or (st.kind == "assign" and st.op in ("+=", "-="))) and allt.get(st.name, "").startswith("unsigned") \
+                    and mentions(expr, st.name):
+                return "vf-unsigned-incdec-bounds-no-wrap"
+        # (3) a narrower variable initialised/assigned from a wider expression and both used in the condition:
+        #     the symbolic value "u == x" survives the truncating assignment
+        for st in walk_stmts(fn.body):
+            if st.kind in ("decl", "assign") and getattr(st, "op", "=") == "=" and allt.get(st.name) == "unsigned char" and mentions(expr, st.name):
+                for n in st.e.walk():
+                    if n.kind == "var" and allt.get(n.name) in ("int", "unsigned", "signed char") and st.e.kind == "var" and mentions(expr, n.name):
+                        return "vf-symbolic-across-narrowing-assignment"
     return None
+
+
+def prog_hash(fn):
+    import hashlib
+    return hashlib.sha1(re.sub(r"\s+", " ", one_function_program(fn)).encode()).hexdigest()[:10]
 
 
 def check(run, replay):
@@ -364,7 +512,7 @@ def check(run, replay):
     run.extra["rule"] = ("X1 non-trivial = a distinct (platform, type, constant type, side, operator, constant) for which the kernel or the binary gives a verdict. "
                          "X2 non-trivial = a distinct verdict finding (condition site, id) whose condition is evaluated at least once in the exhaustive run.")
     vlib.ensure_repo_build()
-    ok = run.prove()
+    ok = run.prove(extra_targets=["theories/Verdict/Run.vo"])
     if not ok:
         run.violation("proof:" + PID, "Properties_C03.vo does not build: " + str(run.proof_error())[:300],
                       {"broken": "proof", "detail": run.proof_error()}, found_input=False)
@@ -407,32 +555,44 @@ def check(run, replay):
             run.violation(key, "`%s`: comparisonError says always %s, but f(%d) takes the other branch" % (line, r, x),
                           {"program": line + "\n", "finding": "comparisonError always %s" % r, "input": {"x": x}})
         # ---------------- X2
-        rounds = 3 if quick else 40
+        rounds = 5 if quick else 40
         per = 60 if quick else 100
         tot = {}
+        seen_pre = set()
+        shrinks = [6 if quick else 60]
         for rd in range(rounds):
             stats, bad, unmapped, findings = run_programs(run, per, work, "prog%d" % rd)
             for k, v in stats.items():
                 tot[k] = tot.get(k, 0) + v
             for f in unmapped[:2]:
                 run.notes.append("unmapped: " + f.show())
-            seen = set()
-            for f, fn, inp, what in bad:
+            for f, fn, inp, what, expr in bad:
                 if f.inconclusive:
                     tot["inconclusive_contradicted"] = tot.get("inconclusive_contradicted", 0) + 1
                     continue
-                key = classify_program_violation(f, fn) or "verdict:%s:%s" % (f.id, re.sub(r"\s+", " ", one_function_program(fn))[-200:])
-                if key in seen:
+                tot["contradicted"] = tot.get("contradicted", 0) + 1
+                pre = classify_program_violation(f, fn, expr) or "%s:%s" % (f.id, expr.key())
+                if pre in seen_pre:
                     continue
-                seen.add(key)
-                run.violation(key, "%s at %d:%d \"%s\" -- %s %s" % (f.id, f.line, f.col, f.msg[:100], what, inp),
-                              {"program": one_function_program(fn), "finding": f.show(), "input": inp, "observation": what,
-                               "note": "line numbers of the finding refer to the multi-function file; the function is reproduced alone here",
+                seen_pre.add(pre)
+                g, b = fn, None
+                if shrinks[0] > 0:
+                    shrinks[0] -= 1
+                    g, b = shrink(copy.deepcopy(fn), f.id, work, budget=50 if quick else 200)
+                if b is None:
+                    g, b = fn, (f, fn, inp, what, expr)
+                f2, fn2, inp2, what2, expr2 = b
+                key = classify_program_violation(f2, g, expr2) or "verdict:%s:%s" % (f2.id, prog_hash(g))
+                run.stream("programs")["disagreements"] += 1
+                run.violation(key, "%s \"%s\" -- %s %s" % (f2.id, f2.msg[:100], what2, inp2),
+                              {"program": one_function_program(g), "finding": f2.show(), "input": inp2, "observation": what2,
+                               "condition": expr2.key(), "shrunk_from_lines": len(one_function_program(fn).split("\n")),
                                "how": "cppcheck --enable=style,warning --inconclusive --platform=unix64 t.c; compile with gcc -fsanitize=undefined and call the function with `input`"})
             if len(run.samples) < 10 and findings:
                 fs = [f for f in findings if f.id in VERDICT_IDS][:2]
                 run.samples += [{"stream": "programs", "finding": f.show()} for f in fs]
-        run.extra["programs"] = tot
+        run.extra["programs"] = tot.get("functions", 0)
+        run.extra["x2_programs"] = tot
         run.extra["notes"] = run.notes[:10]
     finally:
         shutil.rmtree(work, ignore_errors=True)
